@@ -35,6 +35,7 @@ fn conc_step(sh: &Shared, e: &Sexp) -> Option<()> {
       let ms = a.get(1)?.nat()? as u64;
       let sh = sh.clone();
       vthread::spawn(move || {
+        sh.rec("HT".to_string());
         if ms > 0 {
           vthread::sleep(Duration::from_millis(ms));
         }
@@ -50,6 +51,7 @@ fn conc_step(sh: &Shared, e: &Sexp) -> Option<()> {
       let o = pipe(sh, a.get(1)?)?;
       let sh = sh.clone();
       vthread::spawn(move || {
+        sh.rec("HT".to_string());
         if ms > 0 {
           vthread::sleep(Duration::from_millis(ms));
         }
@@ -80,6 +82,7 @@ fn conc_step(sh: &Shared, e: &Sexp) -> Option<()> {
       }
       let sh = sh.clone();
       vthread::spawn(move || {
+        sh.rec("HT".to_string());
         for (gap, text, act) in acts {
           if gap > 0 {
             vthread::sleep(Duration::from_millis(gap));
@@ -147,14 +150,30 @@ impl Scenario for Pipe {
     let mut recs: Vec<String> = Vec::new();
     let mut exits = 0usize;
     let mut spawns = 0usize;
+    let mut harness: Vec<usize> = Vec::new();
+    let mut lib_exits: Vec<String> = Vec::new();
+    for e in out.events.iter() {
+      if e.kind == "h" && e.payload.starts_with("HT@") {
+        harness.push(e.tid);
+      }
+    }
     for e in out.events.iter() {
       match e.kind {
-        "h" => recs.push(format!("{}:{}", e.tid, e.payload)),
+        "h" => {
+          if !e.payload.starts_with("HT@") {
+            recs.push(format!("{}:{}", e.tid, e.payload))
+          }
+        }
         "spawn" => spawns += 1,
-        "exit" => exits += 1,
+        "exit" => {
+          exits += 1;
+          if !harness.contains(&e.tid) {
+            lib_exits.push(e.payload.clone()); // virtual time at which a thread of the library exited
+          }
+        }
         _ => {}
       }
     }
-    format!("threads={}/{} ; {}", exits, spawns, recs.join(" "))
+    format!("threads={}/{} exits={} ; {}", exits, spawns, lib_exits.join(","), recs.join(" "))
   }
 }
